@@ -670,7 +670,47 @@ fn run_stackseq<W: Write>(thorough: bool, seed: u64, shard: u64, nshards: u64, o
     }
 }
 
+/// MUL/IMUL/DIV/IDIV on the boundary lattice of (DX:AX, operand): divisors 0 / 1 / -1, MIN dividends, quotient-overflow edges
+fn run_divx<W: Write>(thorough: bool, seed: u64, shard: u64, nshards: u64, out: &mut W) {
+    let mut g = Gen { rng: Rng::new(seed ^ 0xd1f), memseed: seed % 7 + 1 };
+    let mut b = Bench::new();
+    let mut lat: Vec<u16> = vec![0, 1, 2, 0x7F, 0x80, 0x81, 0xFF, 0x100, 0x7FFF, 0x8000, 0x8001, 0xFFFE, 0xFFFF, 0xFF00, 0x00FE];
+    if thorough {
+        for _ in 0..24 {
+            lat.push(g.rng.next() as u16);
+        }
+    }
+    for op in ["mul", "imul", "div", "idiv"].iter() {
+        for form in ["bx", "bl", "bh", "word [300]", "byte [300]", "word vw", "ax", "dx", "al", "ah"].iter() {
+            for ax in lat.iter() {
+                for dx in lat.iter() {
+                    for v in lat.iter() {
+                        let mut r = g.regs();
+                        r[1] = *ax;
+                        r[4] = *dx;
+                        if *form != "ax" && *form != "al" && *form != "ah" && *form != "dx" {
+                            r[2] = *v;
+                        }
+                        r[11] = 0;
+                        let regs = r.iter().map(|x| x.to_string()).collect::<Vec<_>>().join(" ");
+                        let pokes = format!("300:{},301:{}", v & 0xFF, v >> 8);
+                        let req = format!("x {} | {} | {} | {} | {} | - | {} | {} {}", regs, g.memseed, pokes, LABELS, FNS, g.rng.below(50), op, form);
+                        if crate::rng::fnv1a(&req) % nshards != shard {
+                            continue;
+                        }
+                        let a = answer_with(&mut b, &req);
+                        writeln!(out, "{} => {}", req, a).unwrap();
+                    }
+                }
+            }
+        }
+    }
+}
+
 pub fn run<W: Write>(group: &str, thorough: bool, seed: u64, shard: u64, nshards: u64, out: &mut W) {
+    if group == "divx" {
+        return run_divx(thorough, seed, shard, nshards, out);
+    }
     if group == "stackseq" {
         return run_stackseq(thorough, seed, shard, nshards, out);
     }
